@@ -12,7 +12,7 @@ def instance_key(kind, minrow, src, langs):
 
 def run_family(ck, prop, sub=None):
     tier = ck.tier
-    vecs = syn.generate(ck, tier, ck.seed, emit_sim=False)
+    vecs = syn.generate(ck, tier, ck.seed, emit_sim=(tier == "thorough"))
     layouts = syn.load_layouts()
     rows = syn.QUICK_ROWS if tier == "quick" else syn.all_rows()
     if sub is None:
